@@ -233,6 +233,54 @@ def run(ctx: Ctx, rs: RuleSet, tier: str):
       for u in app_uc) and all(
           g.dominated_by(a, set(ext_del), labels=cfg_lib.NO_EXC)
           for a in ext_asg)
+  if not ok:
+    # the same sequence written as one concatenation:
+    # <body>.extend(<first> + [<update>] + <second>), with `<first> + <second>`
+    # only where there is no update
+    from fdlstatic import dispatch as _dp
+
+    def _chain(e):
+      if isinstance(e, ast.BinOp) and isinstance(e.op, ast.Add):
+        return _chain(e.left) + _chain(e.right)
+      return [e]
+
+    for n, r, x in ext:
+      rd = roles.reaching(g, n, x)
+      if not rd or any(k != 'value' for _, k, _ in rd):
+        continue
+      chains = [(dn, _chain(v)) for dn, _, v in rd]
+      full = [c_ for _, c_ in chains if len(c_) == 3 and isinstance(
+          c_[0], ast.Name) and isinstance(c_[2], ast.Name) and isinstance(
+              c_[1], ast.List) and len(c_[1].elts) == 1 and isinstance(
+                  c_[1].elts[0], ast.Name)]
+      if not full:
+        continue
+      d_, u_, a_ = full[0][0].id, full[0][1].elts[0].id, full[0][2].id
+
+      def _no_update(t, u_=u_):
+        if isinstance(t, ast.Compare) and len(t.ops) == 1 and isinstance(
+            t.left, ast.Name) and t.left.id == u_ and isinstance(
+                t.comparators[0], ast.Constant) and (
+                    t.comparators[0].value is None):
+          if isinstance(t.ops[0], ast.Is):
+            return False   # evaluated for `there is an update`
+          if isinstance(t.ops[0], ast.IsNot):
+            return True
+        return None
+
+      with_update = _dp.reach_atoms(g, _no_update)
+      good = True
+      for dn, c_ in chains:
+        texts = [unparse(e) for e in c_]
+        if texts == [d_, f'[{u_}]', a_]:
+          continue
+        if texts == [d_, a_] and dn not in with_update:
+          continue
+        good = False
+      if good and d_ != a_:
+        BODY, D, A, U = r, d_, a_, u_
+        ok = True
+        break
   rs.check(ok, rule, f'{cc.qualname}:emission',
            'body.extend(deletes) -> update_callable -> body.extend(assigns) '
            'for each parent', ctx.loc(cc, cc.node))
